@@ -291,3 +291,46 @@ func TestC08Concurrent(t *testing.T) {
 	}
 	ev.RunFixed(t, "C08", cases, decideC08Concurrent)
 }
+
+// TestC08Heavy: the denied call sits in a profile with hundreds of validations (whatever the translator or the
+// engine does differently for big modules, the deny list applies to them too).
+func TestC08Heavy(t *testing.T) {
+	shards, idx := shardEnv()
+	var cases []c08Case
+	n := 0
+	for _, b := range deniedOrder {
+		for _, p := range []string{"top-rego", "nested", "extension-helper-function"} {
+			n++
+			if n%shards == idx {
+				cases = append(cases, c08Case{Builtin: b, Call: deniedCalls[b], Position: p, Syntax: "statement"})
+			}
+		}
+	}
+	ev.RunFixed(t, "C08", cases, func(c c08Case) ev.Verdict {
+		grow := func(text string) string {
+			y, err := m.ParseY(text)
+			if err != nil {
+				return text
+			}
+			vals, lv := y.Get("validations"), y.Get("violation")
+			for i := 0; i < 300; i++ {
+				name := fmt.Sprintf("filler-%d", i)
+				vals.Set(name, m.YMap().Set("targetClass", m.YStr("ex.Other")).Set("propertyConstraints", m.YMap().Set(fmt.Sprintf("ex.f%d", i%7), m.YMap().Set("minCount", m.YInt(int64(i%3))))))
+				lv.Items = append(lv.Items, m.YStr(name))
+			}
+			return y.Print(m.YOpts{})
+		}
+		profile, control := grow(c08Profile(c.Position, c.Call, c.Syntax)), grow(c08Profile(c.Position, "count([1])", c.Syntax))
+		if _, cc := compileProfile(control); cc.failed() {
+			return ev.Verdict{Discard: true, Detail: "heavy control profile does not compile: " + trunc(cc.errString(), 300), Obs: map[string]int{"vacuous_embeddings": 1}}
+		}
+		q, cc := compileProfile(profile)
+		if cc.Panic != "" {
+			return ev.Violation("c08-panic", "panic: %s", cc.Panic)
+		}
+		if cc.Err == nil && q != nil {
+			return ev.Violation("c08-accepted:"+c.Builtin, "a profile of 301 validations, one of which calls %s (position %s), was accepted by CompileProfile", c.Builtin, c.Position)
+		}
+		return ev.Verdict{OK: true, NonTrivial: true, Labels: []string{"heavy-profile:" + c.Builtin}}
+	})
+}
